@@ -19,6 +19,7 @@ type PropSpec struct {
 	ID        string   `json:"id"`
 	Units     []string `json:"units"`      // unit names or prefixes ending in *
 	Only      []string `json:"only"`       // optional: obligation-name regexps that count for this property (default all)
+	Exclude   []string `json:"exclude"`    // obligation-name regexps that belong to another property
 	Lemmas    []string `json:"lemmas"`     // spec/lemmas/<name>.smt2
 	Scans     []string `json:"scans"`      // named syntactic side-condition checks
 	Replay    string   `json:"replay"`     // replay template family
@@ -108,7 +109,16 @@ func (en *Engine) checkProperty(id, tier, verif, workdir string, t0 time.Time) i
 	for _, o := range ps.Only {
 		onlyRe = append(onlyRe, regexp.MustCompile(o))
 	}
+	var exclRe []*regexp.Regexp
+	for _, o := range ps.Exclude {
+		exclRe = append(exclRe, regexp.MustCompile(o))
+	}
 	counts := func(name string) bool {
+		for _, r := range exclRe {
+			if r.MatchString(name) {
+				return false
+			}
+		}
 		if len(onlyRe) == 0 {
 			return true
 		}
